@@ -251,7 +251,7 @@ func (t *twin) classifyMissing(f *qgen.Filter, missing []map[string]any, shapeOn
 		}):
 			return "index/json-path-absent-in-document/scan-reads-null-index-has-no-entry"
 		// _nlike / _nilike: the rows whose value is null are lost
-		case (lf.Cmp == "_nlike" || lf.Cmp == "_nilike") && lf.ArrOp == "" && !l.EffOr && !isJSONLeaf(lf) && allMissing(func(r map[string]any) bool { return r[lf.Field] == nil }):
+		case (lf.Cmp == "_nlike" || lf.Cmp == "_nilike") && lf.ArrOp == "" && !l.EffOr && !isJSONLeaf(lf) && !t.orOverIndexed(f) && allMissing(func(r map[string]any) bool { return r[lf.Field] == nil }):
 			return "index/_nlike-on-indexed-string/null-row-missing"
 		case (lf.Cmp == "_nlike" || lf.Cmp == "_nilike") && lf.ArrOp == "" && !l.EffOr && isJSONLeaf(lf) && allMissing(func(r map[string]any) bool {
 			v, _ := jsonAt(r["j"], lf.Path)
@@ -260,7 +260,7 @@ func (t *twin) classifyMissing(f *qgen.Filter, missing []map[string]any, shapeOn
 			return "index/_nlike-on-indexed-json-string/null-row-missing"
 		// unique index: _in with a null in the list looks the null up as a full key; null entries
 		// carry the docID in the key and are never found
-		case lf.Cmp == "_in" && t.uniqueFirstFields()[lf.Field] && listHasNull(lf.Val) && allMissing(func(r map[string]any) bool { return r[lf.Field] == nil }):
+		case lf.Cmp == "_in" && !l.EffOr && !t.orOverIndexed(f) && t.uniqueFirstFields()[lf.Field] && listHasNull(lf.Val) && allMissing(func(r map[string]any) bool { return r[lf.Field] == nil }):
 			return "index/unique/_in-containing-null/null-rows-missing"
 		}
 	}
